@@ -572,6 +572,9 @@ Value Search::search(Position& position, Depth depth, Value alpha, Value beta,
         LOG_DEBUG("[%d] UNDO MOVE %s", info->_ply,
                   position.uci(move).c_str());
 
+        // an aborted subtree returns a meaningless value: do not score or store it
+        if (stop_search) EXIT_SEARCH(Value(0));
+
         if (is_mate(result))
         {
             result += result > VALUE_DRAW ? -1 : 1;
